@@ -41,6 +41,8 @@ type scheduler struct {
 	onces    map[*value]bool
 	Events   []string
 	crash    interface{}
+	Policy   int
+	tick     int
 	deadlock bool
 }
 
@@ -124,8 +126,21 @@ func (s *scheduler) next(exiting bool) {
 		s.main.wake <- struct{}{}
 		return
 	}
-	g := s.runq[0]
-	s.runq = s.runq[1:]
+	k := 0
+	switch s.Policy {
+	case 1: // newest runnable first
+		k = len(s.runq) - 1
+	case 2: // alternate
+		s.tick++
+		if s.tick%2 == 1 {
+			k = len(s.runq) - 1
+		}
+	case 3: // pseudo-random, fixed sequence
+		s.tick = s.tick*1103515245 + 12345
+		k = int(uint(s.tick>>16) % uint(len(s.runq)))
+	}
+	g := s.runq[k]
+	s.runq = append(s.runq[:k:k], s.runq[k+1:]...)
 	s.cur = g
 	g.wake <- struct{}{}
 }
